@@ -280,6 +280,7 @@ func (c ConstantMap) Link(scope Scope, t TypeSpec) (ConstantValue, error) {
 	}
 
 	items := make([]ConstantValuePair, len(c))
+	seen := make(map[interface{}]struct{}, len(c))
 	for i, item := range c {
 		key, err := item.Key.Link(scope, m.KeySpec)
 		if err != nil {
@@ -291,11 +292,43 @@ func (c ConstantMap) Link(scope Scope, t TypeSpec) (ConstantValue, error) {
 			return nil, err
 		}
 
-		// TODO(abg): Duplicate key check
+		if k, ok := primitiveConstantKey(key); ok {
+			if _, dup := seen[k]; dup {
+				return nil, constantValueCastError{
+					Value:  c,
+					Type:   t,
+					Reason: fmt.Errorf("duplicate key %v", k),
+				}
+			}
+			seen[k] = struct{}{}
+		}
 		items[i] = ConstantValuePair{Key: key, Value: value}
 	}
 
 	return ConstantMap(items), nil
+}
+
+// primitiveConstantKey returns a comparable key for a linked constant of a
+// primitive or enum type, following constant references. Two constants with
+// the same key are the same map key or set item in every target language.
+func primitiveConstantKey(v ConstantValue) (interface{}, bool) {
+	switch c := v.(type) {
+	case ConstantBool:
+		return bool(c), true
+	case ConstantInt:
+		return int64(c), true
+	case ConstantDouble:
+		return float64(c), true
+	case ConstantString:
+		return string(c), true
+	case EnumItemReference:
+		return int64(c.Item.Value), true
+	case ConstReference:
+		if c.Target != nil && c.Target.Value != nil {
+			return primitiveConstantKey(c.Target.Value)
+		}
+	}
+	return nil, false
 }
 
 // ConstantSet represents a set of constant values from the Thrift file.
@@ -309,12 +342,22 @@ func (c ConstantSet) Link(scope Scope, t TypeSpec) (ConstantValue, error) {
 	}
 
 	// TODO(abg): Track whether things are linked so that we don't re-link here
-	// TODO(abg): Fail for duplicates
 	values := make([]ConstantValue, len(c))
+	seen := make(map[interface{}]struct{}, len(c))
 	for i, v := range c {
 		value, err := v.Link(scope, s.ValueSpec)
 		if err != nil {
 			return nil, err
+		}
+		if k, ok := primitiveConstantKey(value); ok {
+			if _, dup := seen[k]; dup {
+				return nil, constantValueCastError{
+					Value:  c,
+					Type:   t,
+					Reason: fmt.Errorf("duplicate item %v", k),
+				}
+			}
+			seen[k] = struct{}{}
 		}
 		values[i] = value
 	}
